@@ -1,6 +1,11 @@
 //! Conformance harness binding the TLA+ specification of shred (../spec) to
 //! the real library (path dependency on /repo, rebuilt from its working tree).
 pub mod build;
+pub mod execx;
+pub mod metax;
+pub mod parseqx;
+pub mod worldx;
+pub mod zoo;
 pub mod prog;
 pub mod record;
 pub mod sys;
